@@ -15,7 +15,7 @@ import (
 
 var rec = vh.NewRecorder("C02", "request-roundtrip",
 	"raw HTTP/1.1 requests from a grammar (method, origin-form target with escapes/unclean segments/queries, Host, "+
-		"0-8 end-to-end fields incl. repeated list-type fields and long/empty values, hop-by-hop fields, body none/"+
+		"usually one request per case, sometimes 2-6 at the same time; 0-8 end-to-end fields incl. repeated list-type fields and long/empty values, hop-by-hop fields, body none/"+
 		"Content-Length/chunked at sizes around 4096/32768/1MiB) sent through server+agent binaries to a recording raw "+
 		"backend; non-trivial = escaped or unclean path, non-empty query, repeated field, body >= 4096 or chunked body; "+
 		"distinct = SHA-256 of the canonical case")
@@ -367,21 +367,57 @@ func firstDiff(a, b []byte) int {
 	return n
 }
 
+// Batch is one rapid case: usually a single request, sometimes several sent at the same time (the
+// property is about every request, also when the agent is busy with others).
+type Batch struct {
+	Reqs []ReqCase `json:"reqs"`
+}
+
+func runBatch(t vh.TB, b *Batch) vh.Outcome {
+	outs := make([]vh.Outcome, len(b.Reqs))
+	var wg sync.WaitGroup
+	for i := range b.Reqs {
+		i := i
+		wg.Add(1)
+		go func() {
+			defer wg.Done()
+			outs[i] = runCase(t, &b.Reqs[i])
+		}()
+	}
+	wg.Wait()
+	var o vh.Outcome
+	for _, x := range outs {
+		o.NonTrivial = o.NonTrivial || x.NonTrivial
+		o.Classes = append(o.Classes, x.Classes...)
+		if x.Err != nil && o.Err == nil {
+			o.Err = x.Err
+		}
+	}
+	if len(b.Reqs) > 1 {
+		o.Classes = append(o.Classes, "concurrent-batch")
+	}
+	return stack(t).Stack.Discount(o)
+}
+
 func TestPropRequestRoundTrip(t *testing.T) {
 	defer func() {
 		if e2e != nil {
 			e2e.Close()
 		}
 	}()
-	vh.Rapid(t, vh.Scale(1000, 30000), func(rt *rapid.T) {
-		c := genCase(rt)
-		rec.Check(rt, &c, func() vh.Outcome { return stack(rt).Stack.Discount(runCase(rt, &c)) })
+	vh.Rapid(t, vh.Scale(800, 30000), func(rt *rapid.T) {
+		var b Batch
+		n := rapid.SampledFrom([]int{1, 1, 1, 1, 2, 4, 6}).Draw(rt, "batch")
+		for i := 0; i < n; i++ {
+			b.Reqs = append(b.Reqs, genCase(rt))
+		}
+		rec.Check(rt, &b, func() vh.Outcome { return runBatch(rt, &b) })
 	})
 }
 
 func TestReplay(t *testing.T) {
-	var c ReqCase
-	ok, err := vh.ReplayCase("request-roundtrip", &c)
+	var b Batch
+	ok, err := vh.ReplayCase("request-roundtrip", &b)
 	if err != nil {
 		t.Fatalf("INFRA: %v", err)
 	}
@@ -394,6 +430,6 @@ func TestReplay(t *testing.T) {
 		}
 	}()
 	for i := 0; i < vh.ReplayRuns(); i++ {
-		rec.Check(t, &c, func() vh.Outcome { return runCase(t, &c) })
+		rec.Check(t, &b, func() vh.Outcome { return runBatch(t, &b) })
 	}
 }
